@@ -98,6 +98,10 @@ NextBound == \/ \E op \in {"add", "mul", "intersection"}, a \in Ivs, b \in Ivs :
              \/ \E a \in Ivs, k \in {R(-2), <<-1,2>>, <<1,2>>, R(3)} : vec' = BOp("scale", a, a, 0, k)
              \/ \E a \in Ivs, k \in {R(-2), Zero, <<1,2>>} : vec' = BOp("shift", a, a, 0, k)
              \/ \E a \in { b \in Ivs : HasInteger(b) } : vec' = BOp("int_round", a, a, 0, One)
+             \* endpoints far beyond the 64-bit integers (+-1e30, tokens <<+-1,-30>>): the rounding must not clip them
+             \/ \E a \in { [lo |-> Zero, hi |-> <<1, -30>>], [lo |-> <<-1, -30>>, hi |-> <<7, 2>>], [lo |-> <<-1, -30>>, hi |-> <<1, -30>>],
+                            [lo |-> <<1, -30>>, hi |-> PInf], [lo |-> NInf, hi |-> <<-1, -30>>], [lo |-> <<1, -30>>, hi |-> <<1, -30>>] } :
+                   vec' = BOp("int_round", a, a, 0, One)
              \/ \E a \in Ivs : vec' = BOp("nearest", a, a, 0, One)
              \/ \E a \in [lo : E \cup {NaN}, hi : E \cup {NaN}] : vec' = BOp("new", a, a, 0, One)
 U26 == 67108864
